@@ -1,6 +1,34 @@
-(** C02 - placeholder until the equivalence theorems land (see Proofs/). *)
-From Coq Require Import List.
-From BP Require Import Base.Field Model.Verifier.
-Theorem C02_acc_init_lengths : forall (K : Fld) n T, length (a_gi (acc_init K n T)) = n /\ length (a_hi (acc_init K n T)) = n.
-Proof. intros. unfold acc_init; cbn. now rewrite !repeat_length. Qed.
-Print Assumptions C02_acc_init_lengths.
+(** C02 — the verifier enforces exactly the Bulletproofs+ relation.
+    Proved so far: the index recurrence of the s-vector is the folding form; every scalar a proof
+    contributes is linear in its weight; the static scalars fill the table.  The equality of the
+    code-shaped scalar computation with the textbook residual ([verifier_equiv], statement in DESIGN.md
+    section 5/C02) is not yet proved: it is compared scalar by scalar with the implementation on every
+    run.  Knowledge soundness (paper Theorems 3-4) is TRUSTED. *)
+From Coq Require Import List Arith NArith Bool.
+From BP Require Import Base.Field Model.Verifier Model.VerifyTop Proofs.SvecP Proofs.WeightP Proofs.GuardsP.
+Import ListNotations.
+
+(** when 2^rounds = bits*m (a guard of the code), the loop s[i] = s[i - 2^log2 i] * e^2_{rounds-1-log2 i}
+    builds s(e::es) = s(es) ++ map (. * e^2) s(es), i.e. s_i = s_0 * prod_{j : bit j of i set} e_j^2 *)
+Theorem C02_s_vector_closed_form : forall (K : Fld) full_length s0 esq,
+  full_length = 2 ^ length esq -> s_loop K full_length s0 esq = s_rec K s0 esq.
+Proof. exact s_loop_eq_s_rec. Qed.
+Print Assumptions C02_s_vector_closed_form.
+
+Theorem C02_s_vector_length : forall (K : Fld) s0 esq, length (s_rec K s0 esq) = 2 ^ length esq.
+Proof. exact s_rec_length. Qed.
+Print Assumptions C02_s_vector_length.
+
+(** no term of a proof escapes its weight *)
+Theorem C02_terms_linear_in_weight : forall (K : Fld), FldOk K -> forall bits promises pf ch w,
+  proof_terms K bits promises pf ch w = scale_terms K w (proof_terms K bits promises pf ch (f1 K)).
+Proof. exact proof_terms_linear_in_weight. Qed.
+Print Assumptions C02_terms_linear_in_weight.
+
+(** the static scalars cover the owner's table exactly: 2*bits*m scalars then 2*bits*(cap-m) zeros *)
+Theorem C02_static_scalars_fill_table : forall (K : Fld) (acc : batch_acc K) bits m cap pad,
+  generator_padding (N.of_nat bits) (N.of_nat m) (N.of_nat cap) = Some pad ->
+  length (a_gi acc) = m * bits -> length (a_hi acc) = m * bits -> m <= cap ->
+  length (fst (final_msm K acc (N.to_nat pad))) = 2 * bits * cap.
+Proof. exact static_length_matches_table. Qed.
+Print Assumptions C02_static_scalars_fill_table.
